@@ -6,6 +6,8 @@
 //
 //	actor <name> w <tabs> <writes> commit|abort <reg> <done>     writer transaction
 //	actor <name> reg                                             NewTable (registers table <name>)
+//	actor <name> close <tab>                                     ChangeIterator.Close() of an iterator on <tab> (WriteTxn(tab) + Commit inside)
+//	actor <name> gc <tabs>                                       the real graveyard worker, with collectable tombstones in <tabs> (WriteTxn(tabs) + Commit)
 //	watch <tab> | iwatch <tab>                                   keep a table-wide / initialization watch channel
 //	step <name>                                                  release actor <name> for one micro-step
 package main
@@ -59,7 +61,10 @@ var idIndex = statedb.Index[*Obj, uint64]{
 type actorT struct {
 	name    string
 	id      uint64
-	kind    string // "w" | "reg"
+	kind    string                       // "w" | "reg" | "close" | "gc"
+	iter    statedb.ChangeIterator[*Obj] // close: the iterator to close
+	bound   bool                         // gc: the worker goroutine has been attributed to this actor
+	cycles  int                          // gc: collection cycles begun
 	tabs    []int
 	writes  []int
 	commit  bool
@@ -88,20 +93,22 @@ func goid() uint64 {
 }
 
 type eng struct {
-	mu       sync.Mutex
-	db       *statedb.DB
-	tabs     []statedb.RWTable[*Obj]
-	seqOf    []uint64
-	actors   []*actorT
-	byName   map[string]*actorT
-	current  *actorT
-	holder   map[uint64]*actorT
-	rootHold *actorT
-	watches  []<-chan struct{}
-	draining bool
-	inits    map[string]func(statedb.WriteTxn)
-	ntab0    int  // number of initial tables
-	poisoned bool // an actor got stuck: the rest of the case is not executed (each step would wait 5 s)
+	mu        sync.Mutex
+	db        *statedb.DB
+	tabs      []statedb.RWTable[*Obj]
+	seqOf     []uint64
+	actors    []*actorT
+	byName    map[string]*actorT
+	current   *actorT
+	holder    map[uint64]*actorT
+	rootHold  *actorT
+	watches   []<-chan struct{}
+	draining  bool
+	inits     map[string]func(statedb.WriteTxn)
+	ntab0     int // number of initial tables
+	gcStarted bool
+	keep      []statedb.ChangeIterator[*Obj] // iterators kept open (their trackers keep tombstones until handed)
+	poisoned  bool                           // an actor got stuck: the rest of the case is not executed (each step would wait 5 s)
 }
 
 // goroutine id -> actor, over all cases: a hook call is attributed to the actor (and thereby to the case)
@@ -110,6 +117,29 @@ var (
 	goMu sync.Mutex
 	byGo = map[uint64]*actorT{}
 )
+
+// the gc actor of the case being set up: its worker goroutine is attributed to it at its first hook call
+var (
+	gcMu  sync.Mutex
+	curGC *actorT
+)
+
+func bindGC() *actorT {
+	gcMu.Lock()
+	a := curGC
+	curGC = nil
+	gcMu.Unlock()
+	if a == nil {
+		return nil
+	}
+	goMu.Lock()
+	byGo[goid()] = a
+	goMu.Unlock()
+	a.c.mu.Lock()
+	a.bound = true
+	a.c.mu.Unlock()
+	return a
+}
 
 func actorOfGoroutine() *actorT {
 	goMu.Lock()
@@ -120,6 +150,9 @@ func actorOfGoroutine() *actorT {
 func init() {
 	statedb.VerifHook = func(point, who string) {
 		a := actorOfGoroutine()
+		if a == nil && who == "gc" {
+			a = bindGC()
+		}
 		if a == nil {
 			return
 		}
@@ -129,6 +162,25 @@ func init() {
 		e.mu.Unlock()
 		if dr {
 			return
+		}
+		if a.kind == "gc" {
+			// the graveyard worker as an actor: it waits (unreported) at gc-triggered until its first step,
+			// runs its lock-free scan, then goes through WriteTxn/Commit like any writer; after its commit it
+			// is done (a second cycle never starts)
+			switch point {
+			case "gc-triggered":
+				e.mu.Lock()
+				a.cycles++
+				e.mu.Unlock()
+				<-a.resume
+				return
+			case "gc-scanned":
+				return
+			case "gc-committed":
+				a.report <- "done"
+				<-a.resume
+				return
+			}
 		}
 		a.park(e, point)
 	}
@@ -214,7 +266,7 @@ func (e *eng) drain() {
 	actors := e.actors
 	e.mu.Unlock()
 	for _, a := range actors {
-		if a.started && !a.fin {
+		if (a.started && !a.fin) || a.kind == "gc" {
 			select {
 			case a.resume <- struct{}{}:
 			default:
@@ -330,6 +382,8 @@ func (e *eng) run(a *actorT) {
 		a.report <- "done"
 	}()
 	switch a.kind {
+	case "close":
+		a.iter.Close()
 	case "reg":
 		t, err := statedb.NewTable(e.db, a.name, idIndex, lpmIndex)
 		if err != nil {
@@ -513,6 +567,67 @@ func (e *eng) Op(f []string, line string, out *hx.Out) {
 			a.tabs, a.writes, a.commit = parseInts(f[3]), parseInts(f[4]), f[5] == "commit"
 			a.reg, a.done = parsePairs(f[6]), parsePairs(f[7])
 		}
+		if a.kind == "close" || a.kind == "gc" {
+			a.tabs = parseInts(f[3])
+			for _, t := range a.tabs {
+				if t < 0 || t >= len(e.tabs) {
+					out.P("E bad table")
+					return
+				}
+			}
+		}
+		switch a.kind {
+		case "close":
+			// set-up (not part of the schedule; no actor has started): an iterator on the table
+			w := e.db.WriteTxn(e.tabs[a.tabs[0]])
+			it, err := e.tabs[a.tabs[0]].Changes(w)
+			w.Commit()
+			if err != nil {
+				out.P("E changes: %v", err)
+				return
+			}
+			a.iter = it
+		case "gc":
+			// set-up: the worker is started and every table of <tabs> gets one tombstone that all iterators have
+			// been handed (collectable); the worker is triggered by the iterator's mark and parks before its scan
+			if !e.gcStarted {
+				statedb.VerifSetGCRateLimitInterval(e.db, time.Microsecond)
+				gcMu.Lock()
+				curGC = a
+				gcMu.Unlock()
+				e.db.Start()
+				e.gcStarted = true
+			}
+			for _, t := range a.tabs {
+				tb := e.tabs[t]
+				w := e.db.WriteTxn(tb)
+				it, _ := tb.Changes(w)
+				tb.Insert(w, &Obj{ID: uint64(60000 + t)})
+				w.Commit()
+				w = e.db.WriteTxn(tb)
+				tb.Delete(w, &Obj{ID: uint64(60000 + t)})
+				w.Commit()
+				seq, _ := it.Next(e.db.ReadTxn())
+				for range seq {
+				}
+				e.keep = append(e.keep, it)
+			}
+			deadline := time.Now().Add(stuckTimeout)
+			for {
+				e.mu.Lock()
+				b := a.bound
+				e.mu.Unlock()
+				if b || time.Now().After(deadline) {
+					break
+				}
+				time.Sleep(200 * time.Microsecond)
+			}
+			if !a.bound {
+				e.poisoned = true
+				out.P("X stuck the graveyard worker did not start a collection after deletions were marked")
+				return
+			}
+		}
 		e.mu.Lock()
 		e.actors = append(e.actors, a)
 		e.byName[a.name] = a
@@ -615,10 +730,11 @@ func (e *eng) Op(f []string, line string, out *hx.Out) {
 			out.P("%s n/a %s", tag, e.obs())
 			return
 		}
-		if !a.started {
+		if !a.started && a.kind != "gc" {
 			a.started = true
 			go e.run(a)
 		} else {
+			a.started = true // gc: the worker goroutine already waits at gc-triggered
 			select {
 			case a.resume <- struct{}{}:
 			case <-time.After(stuckTimeout):
